@@ -392,7 +392,7 @@ def decide(u, q, defs, log_prefix, hints, note):
     solver = 0.0
     while True:
         log = '%s.r%d.log' % (log_prefix, rounds)
-        r = run_cbmc(u, q, defs, unwindset, min(q.timeout, int(os.environ.get('VERIF_TIMEOUT_CAP', '1000000'))), log)
+        r = run_cbmc(u, q, defs, unwindset, min(int(q.timeout * float(os.environ.get('VERIF_TIMEOUT_SCALE', '1'))), int(os.environ.get('VERIF_TIMEOUT_CAP', '1000000'))), log)
         total_wall += r['wall']
         peak = max(peak, r['rss_mb'])
         solver += r['solver_s']
